@@ -10,13 +10,30 @@ open EphVerif.CliFetch
 
 def sha (b : List UInt8) : List UInt8 := EphVerif.Spec.sha256 b
 
-def parseMode (s : String) : Option (Mode × Nat) :=
+def parseBase (s : String) : Option (Mode × Nat) :=
   match s with
   | "auto" => some (.auto, 0)
   | "direct" => some (.direct, 1)
   | "tonly" => some (.transportOnly, 2)
   | "cfb" => some (.controlFallback, 3)
   | _ => none
+
+/-- `<mode>[+past|+now|+far|+thr0|+thrbig|+nopub|+undec1|+undec2|+undec3|+undec4]*` : the discovery mode and the state
+of the manifest the harness crafts -/
+def parseMode (s : String) : Option (Mode × Nat × MState) :=
+  match s.splitOn "+" with
+  | [] => none
+  | base :: flags =>
+    match parseBase base with
+    | none => none
+    | some (m, c) =>
+      let known := ["past", "now", "far", "thr0", "thrbig", "nopub", "undec1", "undec2", "undec3", "undec4"]
+      if flags.all known.contains then
+        some (m, c, { decodable := !(flags.any (·.startsWith "undec"))
+                      expired := flags.contains "past" || flags.contains "now"
+                      keyOk := !(flags.contains "thr0" || flags.contains "thrbig")
+                      publisher := !flags.contains "nopub" })
+      else none
 
 /-- `ok=<hex>`, `chunk=<hex>` (empty hex = empty payload), `nop`, `down`, everything else fails -/
 def parseResp (script : String) : Option Resp :=
@@ -61,9 +78,10 @@ def parseEps (toks : List String) : Option (List Ep) :=
 def kindOf : Nat → Kind
   | 0 => .transport | 1 => .relay | 2 => .control | _ => .fallback
 
-def offerOf (e : Ep) : Spec.CliFetch.Offer :=
+def offerOf (m : MState) (e : Ep) : Spec.CliFetch.Offer :=
   { kind := e.kindCode
-    reachable := e.resp != .down
+    -- a transport path the manifest's own state rules out is not one the property obliges the CLI to use
+    reachable := e.resp != .down && (e.kindCode ≥ 2 || (m.publisher && !m.expired && m.keyOk))
     payload := match e.resp with | .payload b => some b | _ => none
     okWithoutPayload := e.kindCode ≥ 2 && e.resp == .okNoPayload }
 
@@ -88,19 +106,19 @@ def step (st : Unit) (tok : List String) (_line : String) (impl : Option String)
   match tok with
   | "fetch" :: modeTok :: p :: rest =>
     match parseMode modeTok, bytesOfHex p, parseEps rest with
-    | some (mode, modeCode), some payload, some eps =>
+    | some (mode, modeCode, ms), some payload, some eps =>
       let h := sha payload
       let paths := (eps.filter (·.kindCode < 4)).map fun e => (⟨e.idx, kindOf e.kindCode, e.prio, e.resp⟩ : Path)
       let (li, loc) := match eps.find? (·.kindCode == 4) with
         | some e => (e.idx, e.resp)
         | none => (0, Resp.down)
-      let r := fetch sha mode h paths li loc
+      let r := fetchM sha ms mode h paths li loc
       let out := s!"exit={r.exit} file={fmtFile r.file} tried={fmtTried r.tried}"
       let verdict := match impl with
         | none => "ok"
         | some i =>
           match field i "exit" |>.bind String.toNat?, field i "file" |>.bind parseFile with
-          | some ex, some file => Spec.CliFetch.judge sha modeCode h (eps.map offerOf) file ex
+          | some ex, some file => Spec.CliFetch.judge sha ms.decodable modeCode h (eps.map (offerOf ms)) file ex
           | _, _ => if i.startsWith "crash:" then "ok" else s!"viol:unexpected-output:{i.take 60}"
       (st, out, verdict)
     | _, _, _ => (st, "bad-op", "ok")
